@@ -269,4 +269,36 @@ pub fn run(cfg: &Cfg, rep: &mut Report) {
       });
     }
   }
+
+  // Informational: the same observe_on_threads pipeline on the library's real
+  // 4-worker futures ThreadPool (free-running, no hooks). Counts how often the
+  // real scheduler reorders or loses items (the known finding's witness on a
+  // scheduler the library itself ships); never a verdict.
+  if cfg.shard == 0 && cfg.only_case.is_none() {
+    use rxrust::prelude::*;
+    use std::sync::{Arc, Mutex};
+    let prev = crate::conc::mode();
+    crate::conc::set_mode(crate::conc::OFF);
+    if let Ok(pool) = futures::executor::ThreadPool::builder().pool_size(4).create() {
+      let runs = cfg.n(150, 1500);
+      let (mut reordered, mut lost) = (0u64, 0u64);
+      for _ in 0..runs {
+        let got: Arc<Mutex<Vec<i32>>> = Arc::new(Mutex::new(vec![]));
+        let g2 = got.clone();
+        let (o, status) = observable::from_iter(0..20).observe_on_threads(pool.clone()).complete_status();
+        o.subscribe(move |v| g2.lock().unwrap().push(v));
+        rxrust::ops::complete_status::CompleteStatus::wait_for_end(status);
+        let v = got.lock().unwrap().clone();
+        if v.len() < 20 {
+          lost += 1;
+        } else if v.windows(2).any(|w| w[0] > w[1]) {
+          reordered += 1;
+        }
+      }
+      rep.count("threadpool4_free_runs", runs as u64);
+      rep.count("threadpool4_runs_reordered", reordered);
+      rep.count("threadpool4_runs_with_lost_items", lost);
+    }
+    crate::conc::set_mode(prev);
+  }
 }
